@@ -100,6 +100,28 @@ func (fr *frame) backEdge(from, hdr *ssa.BasicBlock, cond string, st *state) {
 		}
 	}
 	env := fr.loopEnv(li, func(phi *ssa.Phi) string { return fr.val(phi.Edges[idx]) }, st)
+	env.prevOf = func(name string) (binding, bool) {
+		for _, instr := range hdr.Instrs {
+			phi, ok := instr.(*ssa.Phi)
+			if !ok {
+				break
+			}
+			if phi.Comment == name {
+				return binding{term: fr.vals[phi], typ: phi.Type()}, true
+			}
+		}
+		return binding{}, false
+	}
+	for _, c := range li.spec.Steps {
+		t, err := env.boolExpr(c.Text)
+		if err != nil {
+			e.errf("%s:%d: %v", c.File, c.Line, err)
+			continue
+		}
+		o := fr.oblige("step", c.Label, cond, t, from.Instrs[len(from.Instrs)-1].Pos(), clauseProps(c, e))
+		o.Src = c.Text
+		e.assume(implies(cond, t))
+	}
 	for _, c := range li.spec.Invariants {
 		t, err := env.boolExpr(c.Text)
 		if err != nil {
@@ -108,6 +130,7 @@ func (fr *frame) backEdge(from, hdr *ssa.BasicBlock, cond string, st *state) {
 		}
 		o := fr.oblige("inv-preserved", c.Label, cond, t, from.Instrs[len(from.Instrs)-1].Pos(), clauseProps(c, e))
 		o.Src = c.Text
+		e.assume(implies(cond, t)) // cumulative
 	}
 	if li.spec.Decreases != nil && li.measure != "" {
 		t, _, err := env.expr(li.spec.Decreases.Text)
@@ -329,7 +352,7 @@ func (fr *frame) instr(ins ssa.Instruction, bc string, st *state) {
 			if mc, ok := d.Call.Value.(*ssa.MakeClosure); ok {
 				_ = mc
 			}
-			e.havocEffects(st, eff, fr.escaped)
+			fr.havocKeepingLocalMaps(st, eff, fr.escaped, nil)
 		}
 	case *ssa.Go:
 		if !fr.abstractOK("go") {
